@@ -360,3 +360,6 @@ H("C04", "html/tree", "VxH_C04_font_size_steps", mode="real", reach=["computed",
 H("C09", "html/boxes", "VxH_C09_table_parts", reach=["built"], bounds="x-p > x-j > (x-k, x-i): x-j one of 7 parents (table, inline-table, block, inline, table-row, table-row-group, flex), x-k and x-i one of 9 table parts / inline / block", quick={"maxsteps": 80000000, "shards": 8})
 H("C10", "html/layout", "VxH_C10_box_sizing_height", mode="real", reach=["laid-out"], bounds="one empty block with symbolic vertical / horizontal paddings and borders, box-sizing in 3 values, one of height / min-height / max-height (under height: 300px) symbolic in [0,150]", quick={"maxsteps": 100000000, "shards": 4})
 H("C12", "html/layout", "VxH_C12_avoid_paragraph", mode="real", reach=["laid-out", "break-between-the-paragraphs"], bounds="a paragraph of 3..5 one-word lines followed by a 2-line paragraph with break-before auto / avoid, orphans = widows = 2, page height a symbolic real in [25,75] px; VxAhem font model", quick={"maxsteps": 200000000, "shards": 6})
+H("C13", "html/layout", "VxH_C13_auto_percent", mode="real", nonfinite_confirm=True, reach=["laid-out"], bounds="auto layout, 2 rows x 3 columns: two percentage columns (symbolic in [10,90]%) under a colspan-2 cell holding a 400px block, a third column of 20px content; symbolic border spacing; paths with a float division by zero are decided natively", quick={"maxsteps": 150000000, "shards": 4})
+H("C14", "html/document", "VxH_C14_zero_size_boxes", mode="real", nonfinite_confirm=True, reach=["laid-out", "drawn"], bounds="one block with a background, overflow visible / hidden, border-radius 0 / 5px, no border / top border / four borders of 6 styles; content width and height each in {0, 3, 10} px", quick={"maxsteps": 200000000, "shards": 8})
+H("C16", "html/document", "VxH_C16_nested_order", reach=["laid-out", "drawn"], bounds="html > body > section > (article, nav, aside): section static / relative (z-index auto), each child static / absolute / absolute with z-index 0; unique colours", quick={"maxsteps": 200000000, "shards": 6})
